@@ -538,13 +538,35 @@ class C02:
                 return None
             obs_lits, observed = [], []
             sizes = []
-            for opn in ops:
+            for k_op, opn in enumerate(ops):
                 refobj = ref_object(ref)
                 try:
                     res = OPS[opn](dm.c, refobj)
                     out = ('ok', res)
                 except Exception as e:      # noqa: BLE001
                     out = ('exn', pyobs.exn_name(e))
+                if inp.get('between'):
+                    # other operations on the source between two comparisons (results discarded): column and table
+                    # shuffles / samples / sorts copy and permute row-id objects whose caches the comparison filled
+                    import random as _random
+                    from datamatrix import operations as _ops
+                    _random.seed(seed * 31 + k_op)
+                    try:
+                        for use in inp['between']:
+                            if use == 'shuffle_col':
+                                _ops.shuffle(dm.c)
+                            elif use == 'shuffle_p':
+                                _ops.shuffle(dm.p)
+                            elif use == 'shuffle_dm':
+                                _ops.shuffle(dm)
+                            elif use == 'sample':
+                                _ops.random_sample(dm, min(2, len(dm)))
+                            elif use == 'sort':
+                                _ops.sort(dm, by=dm.p)
+                            elif use == 'shuffle_res' and out[0] == 'ok' and isinstance(out[1], DataMatrix):
+                                _ops.shuffle(out[1])
+                    except Exception as e:      # noqa: BLE001
+                        pyfail = pyfail or 'an operation between two comparisons raised %r' % (e,)
                 after = dump(dm)
                 if not same_dump(before, after) and pyfail is None:
                     pyfail = 'the source changed during %s: %r -> %r' % (opn, before, after)
@@ -588,7 +610,8 @@ class C02:
             'model': '(model_agrees %s)' % args,
             'aux': '(some_in_dom %s "c" %s %s)' % (src_lit[1], rlit, xs),
             'nontrivial': any(0 < s < n for s in sizes),
-            'sig': '%s|%s|%s|%s%s' % (kind, deriv, src_lit[1], rlit, '|shared' if inp['ref'].get('shared') else ''),
+            'sig': '%s|%s|%s|%s%s%s' % (kind, deriv, src_lit[1], rlit, '|shared' if inp['ref'].get('shared') else '',
+                                        '|' + ','.join(inp['between']) if inp.get('between') else ''),
             'tags': [kind, deriv, 'ref:' + self.ref_tag(ref), 'len%d' % n] + (['shared-nan'] if inp['ref'].get('shared') else []),
         }
 
@@ -740,8 +763,12 @@ class C02:
                         nsrc += 1
                         for j in range(refs_per_source if first else refs_per_source - 1):
                             which = whiches[j % len(whiches)] if first else whiches[(j + nsrc) % 5]
-                            add({'kind': kind, 'deriv': deriv, 'cells': cells, 'seed': seed, 'ops': OPNAMES,
-                                 'ref': self.random_ref(rng, kind, m, which)})
+                            inp_ = {'kind': kind, 'deriv': deriv, 'cells': cells, 'seed': seed, 'ops': OPNAMES,
+                                    'ref': self.random_ref(rng, kind, m, which)}
+                            if rng.random() < 0.25:
+                                inp_['between'] = rng.sample(['shuffle_col', 'shuffle_p', 'shuffle_dm', 'sample', 'sort',
+                                                              'shuffle_res'], rng.randint(1, 3))
+                            add(inp_)
         return cases
 
     def source_length(self, kind, deriv, cells, seed, default):
